@@ -74,6 +74,10 @@ CHECKS = {
          "7 planets x 183 epochs (thorough 14 400) for direction, elongation, its bounds and the caller's Epoch; Pluto every 30 days 1885-2099 plus the range ends; minor bodies: 5 q x 11 e (0..1.0 incl. both sides of 0.98) x 4 orientations x 13 times = 2 860 cases (1e-4 deg) plus continuity across the regime switches. The test-pinned elongation defect and the near-parabolic non-convergence are known findings accepted only at the recorded inputs (with the recorded deviation).",
          "Real-valued quantifier: finite lattices; the planets' oracle uses VSOP87 positions (C07), the Sun (C08) and ecliptical2equatorial (C05) of the library itself.",
          "DESIGN.md 3/C09"),
+ "C14": (EX, "exhaustive enumeration: every year x season; every day of sample years for the equation of time; full Cartesian lattices of dates x observers for sunrise/sunset and of synthetic linear motions x observers for the general rise/transit/set routine, judged by the library's own solar position and sidereal time",
+         "All 16 004 (year, season) pairs -1000..3000 (apparent longitude 1e-5 deg, order, spacings, range ends); every day of 10 years (thorough: 601 + 600 years) for the equation of time; 2 520 sunrise/sunset cases (a refusal is accepted only when the Sun really does not cross the standard altitude that day); 5 670 synthetic bodies for times_rise_transit_set incl. the 0/360 right-ascension seam, circumpolar and never-rising cases.",
+         "Real-valued quantifier: lattices; the Sun's altitude oracle uses Sun.apparent_geocentric_position (C08), apparent_sidereal_time (C16) and equatorial2horizontal (C05).",
+         "DESIGN.md 3/C14"),
 }
 
 NOT_YET = {}
